@@ -15,26 +15,48 @@ import harness.common as hc
 from harness.common import Ck, coq_list
 
 MANIFEST = dict(
-    technique='Rocq proof (heap frame theorem over all mutation histories, kernel-checked separation certificates for '
-              'exported real object graphs, copy census obligations) + ast census of every copy() + oracle search',
-    text='Theorems in Props/C09.v: in a heap of mutable/immutable nodes, if no mutable location is reachable both from '
-         'object a and from the roots a mutator holds, no sequence of stores/allocations through those roots changes the '
-         'unfolding (export) of a, and vice versa; a certificate checker for finite heaps is sound for that premise; a copy '
-         'built field by field according to a census all of whose (kind, how) pairs pass field_fresh is separated from '
-         'its original; observational equality composes over covered fields; Keyvalues.__add__ is pure iff every append '
-         'goes to the copy. Tie: translate/c09_copy.py regenerates the census of every copy()/__copy__/__deepcopy__/'
-         'copy_values/__add__/__iadd__/extend from vmf.py and keyvalues.py (instance obligations per class); the '
-         'object graphs of generated originals and their copies are exported from the running implementation and the '
-         'separation certificate is checked in the kernel; search: identity walk, export equality modulo IDs, random '
-         'in-place mutation histories on either side, collapse of instances, operand snapshots for every operator.',
-    note='Trusted: Coq kernel + vm_compute, translate/c09_copy.py, harness/c09_util.py (graph walker: __slots__, '
-         '__dict__, containers; the VMF back pointer is context and is not followed), CPython object identity. The map '
-         'back pointer and everything reached only through it (ID managers, by_class/by_target indexes) are outside the '
-         'model (C07/C08). Float rounding is irrelevant here (bit-exact snapshots). Cython twins are not exercised.',
+    technique='Rocq proof (heap frame theorem over all mutation histories; copy census with sources => independence; '
+              'per-class export-equality theorem over masked unfoldings; operator-purity and collapse_one frame theorems '
+              'as instances of the frame theorem; kernel-checked separation certificates for exported real object graphs) '
+              '+ five fail-closed ast translators (copy census with source fields, export reads, Keyvalues +/+= append '
+              'sites, math.py operator write/return origins, collapse_one write/enter/copy sites) + oracle search',
+    text='Theorems in Props/C09.v (no axioms). Independence: in a heap of mutable/immutable nodes, if no mutable location '
+         'is reachable both from object a and from the roots a mutator holds, no sequence of stores/allocations through '
+         'those roots changes the unfolding (export) of a, and vice versa; a certificate checker for finite heaps is sound '
+         'for that premise; a copy built field by field according to a census all of whose (kind, how) pairs pass '
+         'field_fresh AND whose fields are each built from their own source field (copy_sources_match) is separated from '
+         'its original. Completeness: c09_copy_export_equal — if every field the class\'s export reads (generated '
+         'export_reads_X) is carried over from its own field (share / fresh container of the same elements / nested copy '
+         'that itself exports equally) the copy\'s masked unfolding (IDs, map pointer and unread fields masked) equals the '
+         'original\'s at every depth; refuted for a wrong source field. Keyvalues + / +=: pure, complete and every '
+         'appended child a fresh copy iff the receiver and the copied-flag of each append site (one per branch) are right. '
+         'Operators: a run none of whose stores is tagged with an operand origin leaves every pre-existing object '
+         'unchanged and returns only new objects; in-place operators leave everything separated from the receiver '
+         'unchanged. Instancing: a collapse_one run with no template-tagged store or stored value leaves the template '
+         'unchanged. Tie (every run): translators regenerate the five Gen tables from vmf.py, keyvalues.py, math.py, '
+         'instancing.py; ~110 named instance obligations (per class: copy_covers_fields, copy_fresh_mutables, '
+         'copy_sources_match, copy_export_equal, export_reads_are_fields; per kv branch; per operator family; '
+         'collapse_*); census vs run-time identities, export reads vs traced attribute reads, operator rows vs real '
+         'calls, kv model vs implementation; exported real object graphs certified in the kernel. Search: identity '
+         'walk, export equality modulo IDs, random in-place mutation histories on either side, instance collapse with '
+         'proxies followed by edits of the target, operand snapshots for every operator.',
+    note='Trusted: Coq kernel + vm_compute; the translators\' classification of Python expressions into census rows (each '
+         'cross-checked dynamically: census_vs_runtime, export_reads_vs_runtime, op_census_vs_runtime, kv_add '
+         'correspondence) and the reading of a census row as its heap meaning (how_sem / how_complete / tstep / cstep: '
+         'stated in the theorems, not derived from Python semantics); harness/c09_util.py (graph walker: __slots__, '
+         '__dict__, containers; the VMF back pointer is context and is not followed); CPython object identity. '
+         'Completeness is proved relative to "export is a function of the fields it reads" (reads census is static, '
+         'over-approximation checked against traced reads); HDeep fields take the nested class\'s own theorem as '
+         'hypothesis (all_classes_export_ok discharges it for every class of the table). The map back pointer and '
+         'everything reached only through it (ID managers, by_class/by_target indexes) are outside the model (C07/C08). '
+         'Float rounding is irrelevant here (bit-exact snapshots). Cython twins are not exercised. Immutable shared '
+         'values (str, tuples, frozen objects) are atoms of the heap model.',
 )
 
 IMPORTS = ['Coq.Lists.List', 'Coq.Bool.Bool', 'Coq.ZArith.ZArith', 'Coq.Strings.String', 'SV.SM.Store', 'SV.SM.StoreCert',
-           'SV.SM.StoreCopy', 'SV.SM.KvAdd', 'SV.Gen.CopyCensus_gen', 'SV.Props.C09']
+           'SV.SM.StoreCopy', 'SV.SM.StoreCopySrc', 'SV.SM.StoreCopyExport', 'SV.SM.KvAdd', 'SV.SM.KvAddFresh',
+           'SV.SM.OpPurity', 'SV.SM.CollapseCensus', 'SV.Gen.CopyCensus_gen', 'SV.Gen.CopyExportReads_gen',
+           'SV.Gen.C09OpCensus_gen', 'SV.Gen.C09Collapse_gen', 'SV.Props.C09']
 CORPUS = hc.VERIF / 'corpus' / 'C09'
 
 
@@ -146,9 +168,30 @@ def run_copy_case(kind: str, case_seed: int, variant: str, n_mut: int, collect: 
     return problems
 
 
+def _copy_job(job: tuple) -> tuple[list[dict], int]:
+    info: dict = {}
+    probs = run_copy_case(job[0], job[1], job[2], job[3], info)
+    return probs, info.get('size', 0)
+
+
+def _run_copy_cases(jobs: list[tuple]) -> list[tuple[list[dict], int]]:
+    """The copy cases are independent of each other (each has its own seed): run them in a small process pool, results
+    in job order (deterministic).  Falls back to the serial loop if no pool can be started."""
+    import multiprocessing as mp
+    import os
+    workers = max(1, min(4, (os.cpu_count() or 2) // 2))
+    if workers > 1 and len(jobs) >= 200:
+        try:
+            with mp.get_context('fork').Pool(workers) as pool:
+                return pool.map(_copy_job, jobs, chunksize=max(1, len(jobs) // (workers * 8)))
+        except (OSError, ValueError):
+            pass
+    return [_copy_job(j) for j in jobs]
+
+
 def search_copies(ck: Ck) -> None:
     from harness import c09_util as U
-    n = _budget(ck, 3500, 40000)
+    n = _budget(ck, 2400, 40000)
     cases: list[tuple[str, int, str]] = []
     if CORPUS.exists():
         for p in sorted(CORPUS.glob('*.json')):
@@ -160,9 +203,10 @@ def search_copies(ck: Ck) -> None:
         kind = ck.rng.choice(kinds)
         cases.append((kind, ck.rng.randrange(1 << 30), ck.rng.choice(sorted(U.copy_variants(kind)))))
     found: dict[str, tuple[dict, tuple]] = {}
-    for kind, seed, variant in cases:
-        info: dict = {}
-        probs = run_copy_case(kind, seed, variant, ck.rng.choice([3, 6, 12]), info)
+    jobs = [(kind, seed, variant, ck.rng.choice([3, 6, 12])) for kind, seed, variant in cases]
+    results = _run_copy_cases(jobs)
+    for (kind, seed, variant), (probs, size) in zip(cases, results):
+        info = {'size': size}
         ck.count('copy_cases')
         ck.hist('copy_kind', kind)
         ck.hist('copy_variant', f'{kind}.{variant}')
@@ -265,7 +309,7 @@ CONSISTENT = {
 }
 
 
-def corr_census_runtime(ck: Ck, side: dict) -> None:
+def corr_census_runtime(ck: Ck, side: dict, unfresh: tuple = ()) -> None:
     """The translator's census (static) against what copy() really does on generated objects (dynamic): for every
     class and data field, is the field of the copy the same object / a fresh container of the same elements / fresh
     all the way down, as the census says?  Guards the translator."""
@@ -306,15 +350,25 @@ def corr_census_runtime(ck: Ck, side: dict) -> None:
         for o, c in pairs:
             ck.count('census_runtime_pairs')
             for f, _kind, how, _detail in rows:
+                # the census says from WHICH field of the original the field of the copy is built
+                srcs = side.get('sources', {}).get(lab, {}).get(f, [])
+                sf = srcs[0] if len(srcs) == 1 and how in ('HShare', 'HDeep', 'HShallow') else f
                 try:
-                    a, b = getattr(o, f), getattr(c, f)
+                    a, b = getattr(o, sf), getattr(c, f)
                 except AttributeError:
                     bad.append((lab, f, 'attribute missing at run time', how))
                     continue
+                if sf != f:
+                    ck.hist('census_runtime_cross_field', f'{lab}.{f}<-{sf}')
                 rt = runtime_how(a, b)
                 ck.hist('census_runtime', f'{how}->{rt}')
                 seen_fields.add((lab, f))
-                if rt not in CONSISTENT[how]:
+                ok_rt = set(CONSISTENT[how])
+                if how == 'HDeep' and unfresh:
+                    # HDeep = "the nested copy() / constructor census decides"; when one of those censuses itself
+                    # fails copy_fresh_mutables the census as a whole SAYS that mutables are shared below this field
+                    ok_rt.add('shallow')
+                if rt not in ok_rt:
                     bad.append((lab, f, rt, how))
     for lab, rows in census.items():
         for f, *_ in rows:
@@ -327,6 +381,43 @@ def corr_census_runtime(ck: Ck, side: dict) -> None:
     if uniq:
         ck.tie_broken.append('copy census disagrees with the run-time behaviour of copy(): ' + repr(uniq[:4]))
 
+
+
+def corr_export_reads(ck: Ck, side: dict, eside: dict) -> None:
+    """The translator's export-reads census (static) against the attribute reads traced while the real export runs
+    on generated objects (every reachable map object switched to a logging subclass): every data field really read
+    must be in the static census (the static census over-approximates, which is what copy_export_equal needs)."""
+    from harness import c09_util as U
+    reads = eside.get('reads', {})
+    fields: dict[str, set[str]] = {}
+    for lab, rows in side.get('census', {}).items():
+        fields.setdefault(side.get('class_of', {}).get(lab, lab), set()).update(r[0] for r in rows)
+    n = _budget(ck, 12, 80)
+    missing: set[tuple[str, str]] = set()
+    seen: set[tuple[str, str]] = set()
+    for kind in U.KINDS:
+        for _ in range(n):
+            r = random.Random(ck.rng.randrange(1 << 30))
+            o = U.generate(kind, r, U.VMF())
+            before = U.observe(o)
+            got = U.traced_export_reads(o)
+            if U.observe(o) != before:
+                missing.add((kind, '<tracing changed the export>'))
+            ck.count('export_read_traces')
+            for cname, attr in got:
+                if attr in fields.get(cname, ()):
+                    seen.add((cname, attr))
+                    ck.hist('export_reads_runtime', f'{cname}.{attr}')
+                    if attr not in reads.get(cname, []):
+                        missing.add((cname, attr))
+    never = sorted((c, f) for c, fs in reads.items() for f in fs if (c, f) not in seen and f in fields.get(c, ()))
+    ck.obligation('correspondence:export_reads_vs_runtime', not missing,
+                  f'{len(seen)} (class, field) pairs read by the real export on generated objects, all must be in the static '
+                  f'export-reads census; missing from the census: {sorted(missing)[:8]}; in the census but never read at run '
+                  f'time (over-approximation, harmless): {never[:8]}')
+    ck.extra['export_reads_static_never_read_at_runtime'] = never
+    if missing:
+        ck.tie_broken.append('export-reads census misses fields the real export reads: ' + repr(sorted(missing)[:4]))
 
 
 # ------------------------------------------------------------------------------------------------ operators
@@ -409,6 +500,77 @@ def search_operators(ck: Ck) -> None:
                 elif res is a and not type(a).__name__.startswith('Frozen') and name not in ('pos',):
                     ck.violation(f'operator-returns-operand:{name}({type(a).__name__})',
                                  f'{name} returned its mutable operand itself', {'op': name, 'a': repr(a)})
+
+
+def corr_op_census(ck: Ck, oside: dict) -> None:
+    """Every row of the operator census (Class.method, pure / in-place) is CALLED on generated operands: a row the
+    census calls pure must leave receiver and argument bit-identical and (mutable classes) return neither of them;
+    an in-place row may change only the receiver.  Guards the translator; a disagreement where the census says
+    'pure' is also reported as a concrete violation."""
+    from harness.c09_util import bits
+    import srctools.math as M
+    rows = oside.get('rows', [])
+    if not rows:
+        return
+    r = ck.rng
+    f = lambda: r.choice([0.0, -0.0, 1.0, -1.5, 90.0, 359.5, 1e-3, 37.25, 1024.0])
+
+    def make(cname: str):
+        if cname == 'Vec':
+            return M.Vec(f(), f(), f())
+        if cname == 'FrozenVec':
+            return M.FrozenVec(f(), f(), f())
+        if cname == 'Angle':
+            return M.Angle(f(), f(), f())
+        if cname == 'FrozenAngle':
+            return M.FrozenAngle(f(), f(), f())
+        m = M.Matrix.from_angle(M.Angle(f(), f(), f()))
+        return m if cname == 'Matrix' else m.freeze()
+    arg_makers = [None, lambda: 2.5, lambda: 2, lambda: (1.0, 2.0, 3.0), lambda: 'x', lambda: 0] + \
+        [(lambda c=c: make(c)) for c in ('Vec', 'FrozenVec', 'Angle', 'FrozenAngle', 'Matrix', 'FrozenMatrix')]
+    bad: list[tuple] = []
+    never: list[str] = []
+    for fam, cname, meth, kind, writes, rets in rows:
+        pure_row = kind == 'OpPure' and not (set(writes) & {'self', 'unknown'} or any(w.startswith('p') for w in writes))
+        called = 0
+        for mk in arg_makers:
+            for _ in range(2):
+                a = make(cname)
+                args = () if mk is None else (mk(),)
+                sa, sb = bits(a), tuple(bits(x) for x in args)
+                try:
+                    with warnings.catch_warnings():
+                        warnings.simplefilter('ignore')
+                        res = getattr(a, meth)(*args)
+                        if hasattr(res, '__next__'):
+                            res = list(res)
+                except Exception:
+                    continue
+                called += 1
+                ck.count('op_census_calls')
+                a_changed, b_changed = bits(a) != sa, tuple(bits(x) for x in args) != sb
+                mutable = cname in ('Vec', 'Angle', 'Matrix')
+                ret_operand = any(res is x for x in (a,) + args if hasattr(x, 'copy') and not type(x).__name__.startswith('Frozen'))
+                if kind == 'OpPure' and (a_changed or b_changed or (mutable and ret_operand and 'self' not in rets and not any(x.startswith('p') for x in rets))):
+                    what = 'receiver changed' if a_changed else 'argument changed' if b_changed else 'returned an operand'
+                    bad.append((f'{cname}.{meth}', what, repr(args)))
+                    if pure_row:
+                        ck.violation(f'op-census-row:{cname}.{meth}', f'{cname}.{meth}{args!r}: {what} although the operator census '
+                                     f'classifies the method as pure', {'class': cname, 'method': meth, 'args': repr(args),
+                                                                       'receiver_before': repr(sa), 'receiver_after': repr(a)})
+                if kind == 'OpInplace' and b_changed:
+                    bad.append((f'{cname}.{meth}', 'in-place operator changed its argument', repr(args)))
+        if not called:
+            never.append(f'{cname}.{meth}')
+        else:
+            ck.seen(('oprow', cname, meth))
+    ck.obligation('correspondence:op_census_vs_runtime', not bad,
+                  f'{len(rows)} census rows (class, operator) called on generated operands: operands bit-identical afterwards for '
+                  f'pure rows, only the receiver changed for in-place rows; disagreements: {bad[:6]}; rows that could not be '
+                  f'called with any probe argument: {never[:12]}')
+    ck.extra['op_census_rows_not_exercised'] = never
+    if bad:
+        ck.tie_broken.append('operator census disagrees with run-time behaviour: ' + repr(bad[:3]))
 
 
 # ------------------------------------------------------------------------------------------------ Keyvalues + / += / extend
@@ -595,19 +757,35 @@ def run_instance_case(case_seed: int) -> list[dict]:
             s.vis_shown = True
             s.visgroup_ids.clear()
             tmpl.add_brush(s)
+        with_proxy = r.random() < 0.5
+        if with_proxy:
+            # instance inputs / outputs: an io_proxy relaying `instance:door;Open`, and a named entity firing ProxyRelay
+            proxy = tmpl.create_ent('func_instance_io_proxy', targetname='proxy', origin='0 0 0')
+            proxy.add_out(Output('OnProxyRelay', 'door', 'Open', r.choice(['', 'p1']), r.choice([0.0, 0.5])))
+            relay = tmpl.create_ent('logic_relay', targetname='relay', origin='8 8 8')
+            relay.add_out(Output('OnTrigger', 'proxy', 'ProxyRelay', '', 0.0))
+            relay.add_out(Output('OnSpawn', 'door', 'Close', '', 1.0))
         ifile = instancing.InstanceFile(tmpl)
         target = VMF()
 
         def dump(v):
             buf = io.StringIO()
             v.export(buf, inc_version=False)
-            return U._sort_runs(buf.getvalue())
+            text = U._sort_runs(buf.getvalue())
+            if v is tmpl:       # the parsed instance file also owns the proxy Output objects (removed from the map)
+                text += ''.join(sorted(f'proxy_input {k}: {o.as_keyvalue()}' for k, o in ifile.proxy_inputs.items()))
+                text += ''.join(sorted(f'proxy_output {k}: {o[1].as_keyvalue()}' for k, o in ifile.proxy_outputs.items()))
+            return text
         before = dump(tmpl)
         snaps = []
         for k in range(2):
             ient = target.create_ent('func_instance', targetname=f'inst{k}', origin=f'{64 * k} 0 0', angles='0 90 0',
                                      file='x.vmf', fixup_style=str(r.choice([0, 1, 2])))
             ient.fixup['$outer'] = 'val'
+            if with_proxy:
+                ient.add_out(Output('OnTrigger', 'outside', 'Kill', '', 0.0, inst_out='relay'))
+                trig = target.create_ent('trigger_once', targetname=f'trig{k}')
+                trig.add_out(Output('OnStartTouch', f'inst{k}', 'Open', '', 0.0, inst_in='door'))
             inst = instancing.Instance.from_entity(ient)
             snap_ient = U.observe(ient)
             try:
@@ -628,6 +806,25 @@ def run_instance_case(case_seed: int) -> list[dict]:
                                  'detail': [where, la, lb]})
                 break
             snaps.append(dump(target))
+        # independence afterwards: in-place edits of what was collapsed into the target must not show in the template
+        if not problems:
+            pool = [o for o in list(target.entities) + list(target.brushes)]
+            for _step in range(6):
+                if not pool:
+                    break
+                victim = r.choice(pool)
+                try:
+                    desc = U.api_mutation(r, victim) if r.random() < 0.5 else U.generic_mutation(r, victim)
+                except Exception as e:
+                    problems.append({'key': f'instance-target-mutation-raised:{type(e).__name__}', 'what': f'{type(e).__name__}: {e}', 'detail': []})
+                    break
+                now = dump(tmpl)
+                if now != before:
+                    where, la, lb = U.first_diff(before, now)
+                    problems.append({'key': f'instance-target-edit-visible-in-template:{where_key(where)}',
+                                     'what': f'after collapse_one, editing the target map ({desc}) changed the instance template at '
+                                             f'{where}: {la!r} -> {lb!r}', 'detail': [desc, where, la, lb]})
+                    break
     return problems
 
 
@@ -653,44 +850,113 @@ def run(ck: Ck) -> None:
                'points, visgroup trees, Keyvalues trees ...); non-trivial = the object graph has at least 3 nodes; each case '
                'is followed by a random history of 3-12 in-place mutations (public API and generic stores into any reachable '
                'mutable object) on either side; operators: every (op, lhs type, rhs type, values) over Vec/Angle/Matrix and '
-               'frozen twins, scalars and tuples; Keyvalues +/+=/extend with list/root/block/generator operands; instance '
-               'collapse of generated templates; distinct by full case tuple')
+               'frozen twins, scalars and tuples, plus every row of the operator census called with 12 probe arguments; '
+               'Keyvalues +/+=/extend with list/root/block/generator operands; instance collapse of generated templates '
+               '(half of them with an io_proxy, instance inputs and outputs) twice, then 6 edits of the target map; export '
+               'read traces of generated objects of every kind; distinct by full case tuple')
     ck.trusted.append('harness/c09_util.py object-graph walker (slots, __dict__, containers); the VMF back pointer is context')
+    ck.trusted.append('translate/c09_copy.py, c09_export.py, c09_ops.py, c09_collapse.py: classification of Python expressions into '
+                      'census rows (fail-closed; each census is compared with run-time behaviour on every run)')
+    ck.assumptions.append('a census row means its heap relation (how_sem / how_complete, tstep / cstep tags): the theorems are '
+                          'stated over these relations; immutable shared values (str, tuple, frozen objects) are atoms')
+    ck.assumptions.append('export is a function of the data fields it reads (export_reads census, static over-approximation '
+                          'of the traced reads); IDs and the map back pointer are masked in the export comparison')
     ck.assumptions.append('the map back pointer (Entity.map, Solid.map, Side.map, VisGroup.vmf ...) is context: mutations '
                           'performed through the map (ID managers, indexes, entity lists) are outside C09 (see C07/C08)')
     ck.assumptions.append('observation = export text (Entity/Solid/Side/VisGroup/EntityGroup/Camera/Cordon/Output/EntityFixup '
                           'export, Keyvalues.serialise, str(UVAxis)), IDs masked, visgroup/group id runs sorted (sets)')
+    from translate import c09_export
+    import time as _time
+    t_last = [_time.time()]
+    phases: dict[str, float] = {}
+
+    def lap(name: str) -> None:       # evidence only (where the wall time goes); never used in a decision
+        now = _time.time()
+        phases[name] = round(phases.get(name, 0.0) + now - t_last[0], 1)
+        t_last[0] = now
+        ck.extra['phase_wall_s'] = phases
     ok_t = ck.translate('CopyCensus_gen', c09_copy.translate)
     side = ck.extra.get('translated', {}).get('CopyCensus_gen', {})
-    built = ok_t and ck.build(['Props/C09.vo'])
+    ok_e = ck.translate('CopyExportReads_gen', c09_export.translate)
+    eside = ck.extra.get('translated', {}).get('CopyExportReads_gen', {})
+    from translate import c09_ops
+    ok_o = ck.translate('C09OpCensus_gen', c09_ops.translate)
+    oside = ck.extra.get('translated', {}).get('C09OpCensus_gen', {})
+    from translate import c09_collapse
+    ok_c = ck.translate('C09Collapse_gen', c09_collapse.translate)
+    cside = ck.extra.get('translated', {}).get('C09Collapse_gen', {})
+    built = ok_t and ok_e and ok_o and ok_c and ck.build(['Props/C09.vo'])
     if ok_t:
         ck.sample({'census_Side(field, kind, how, source expression)': side.get('census', {}).get('Side')})
     if built:
+        lap('translate+build')
         ck.theorems('Props/C09.v')
+        lap('print_assumptions')
         obs = {}
         for cls in side.get('classes', []):
             obs[f'copy_covers_fields:{cls}'] = f'copy_covers_fields census_{cls}'
             obs[f'copy_fresh_mutables:{cls}'] = f'copy_fresh_mutables census_{cls}'
+            obs[f'copy_sources_match:{cls}'] = f'copy_sources_match census_{cls} sources_{cls}'
+            real = side.get('class_of', {}).get(cls, cls)
+            obs[f'copy_export_equal:{cls}'] = f'copy_export_ok census_{cls} sources_{cls} export_reads_{real}'
+            obs[f'export_reads_are_fields:{cls}'] = f'reads_are_fields census_{cls} export_reads_{real}'
         obs['kv_add_appends_to_copy_and_returns_it'] = 'recv_is_copy kv_add_recv_single && recv_is_copy kv_add_recv_iter && recv_is_copy kv_add_ret'
         obs['kv_iadd_appends_to_self'] = 'negb (recv_is_copy kv_iadd_recv_single) && negb (recv_is_copy kv_iadd_recv_iter)'
         obs['kv_added_items_are_copied'] = 'kv_add_args_copied && kv_iadd_args_copied && kv_extend_args_copied'
+        obs['kv_add_single_branch_appends_copy'] = 'kv_add_single_copied'
+        obs['kv_add_iter_branch_appends_copy'] = 'kv_add_iter_copied'
+        obs['kv_iadd_single_branch_appends_copy'] = 'kv_iadd_single_copied'
+        obs['kv_iadd_iter_branch_appends_copy'] = 'kv_iadd_iter_copied'
+        for fam in ('Vec', 'Angle', 'Matrix'):
+            obs[f'ops_store_nothing_to_operands:{fam}'] = f'ops_store_nothing_to_operands op_census_{fam}'
+            obs[f'ops_return_fresh:{fam}'] = f'ops_return_fresh op_census_{fam}'
+            obs[f'inplace_ops_write_only_self:{fam}'] = f'inplace_ops_write_only_self op_census_{fam}'
+        obs['op_census_size'] = 'Nat.leb 150 (List.length op_census_all) && Nat.eqb (List.length op_census_all) %d' % oside.get('n_rows', -1)
+        obs['collapse_never_writes_template'] = 'collapse_never_writes_template collapse_writes'
+        obs['collapse_only_copies_enter_target'] = 'collapse_only_copies_enter collapse_enters'
+        obs['collapse_copies_are_censused'] = ('collapse_copies_censused collapse_copies (List.map fst all_census) && '
+                                               'Nat.eqb (List.length collapse_copies) %d' % len(cside.get('copies', [])))
+        obs['collapse_census_size'] = 'Nat.leb 20 (List.length collapse_writes) && Nat.leb 10 (List.length collapse_enters)'
+        obs['all_classes_export_ok'] = 'all_export_ok'
+        obs['all_sources_present'] = 'Nat.eqb (List.length all_sources) %d && all_sources_match' % len(side.get('classes', []))
         obs['all_classes_present'] = 'Nat.eqb (List.length all_census) %d' % len(side.get('classes', []))
         res = ck.instance_obligations(IMPORTS, obs)
         failing = [k for k, v in res.items() if not v]
         if failing:
             ck.tie_broken.append('copy census obligations failed: ' + ', '.join(failing))
-            detail = ck.coq_eval(IMPORTS, [f'(not_covered census_{c}, not_fresh census_{c})' for c in side.get('classes', [])],
-                                 name='census_detail')
+            detail = ck.coq_eval(IMPORTS, [f'(not_covered census_{c}, not_fresh census_{c}, wrong_source census_{c} sources_{c}, '
+                                           f'export_broken census_{c} sources_{c} export_reads_{side.get("class_of", {}).get(c, c)})'
+                                           for c in side.get('classes', [])], name='census_detail')
             if detail:
-                ck.extra['census_offending_fields(not_covered, not_fresh)'] = {
-                    c: d for c, d in zip(side.get('classes', []), detail) if d.replace(' ', '') not in ('(nil,nil)', '([],[])')}
+                ck.extra['census_offending_fields(not_covered, not_fresh, wrong_source, export_broken)'] = {
+                    c: d for c, d in zip(side.get('classes', []), detail) if d.replace(' ', '') not in ('(nil,nil,nil,nil)', '([],[],[],[])')}
+            bad_cl = ck.coq_eval(IMPORTS, ['(collapse_template_sites collapse_writes, collapse_template_sites collapse_enters)'],
+                                 name='collapse_detail')
+            if bad_cl:
+                ck.extra['collapse_one_template_sites(writes, enters)'] = bad_cl[0]
+            bad_ops = ck.coq_eval(IMPORTS, ['offending_ops op_census_all'], name='ops_detail')
+            if bad_ops:
+                ck.extra['op_census_offending_rows'] = bad_ops[0]
+                ck.extra['op_census_offending_detail'] = [r for r in oside.get('rows', []) if f'"{r[1]}.{r[2]}"' in bad_ops[0]][:20]
+            if detail:
+                ck.extra['census_sources_of_offending_classes'] = {
+                    c: side.get('sources', {}).get(c) for c in side.get('classes', []) if not res.get(f'copy_sources_match:{c}', True)}
+        lap('instance_obligations')
         cert_cases(ck)
-        corr_census_runtime(ck, side)
+        lap('certificates')
+        corr_census_runtime(ck, side, tuple(k for k, v in res.items() if k.startswith('copy_fresh_mutables:') and not v))
+        corr_export_reads(ck, side, eside)
         corr_kv_add(ck, side)
+        corr_op_census(ck, oside)
+        lap('correspondences')
     search_copies(ck)
+    lap('search_copies')
     search_kv_add(ck)
+    lap('search_kv_add')
     search_operators(ck)
+    lap('search_operators')
     search_instancing(ck)
+    lap('search_instancing')
     # explain failed obligations by concrete violations found by the search
     keys = {v['key'] for v in ck.violations}
 
@@ -702,6 +968,8 @@ def run(ck: Ck) -> None:
                   'EntityFixup': ['EntityFixup', 'Entity'], 'Side': ['Side', 'Solid', 'Entity'], 'Solid': ['Solid', 'Entity']}.get(base, [base])
         if any_key(*[f'copy-incomplete:{o}:' for o in owners]):
             ck.explain(f'instance:copy_covers_fields:{cls}')
+            ck.explain(f'instance:copy_sources_match:{cls}')
+            ck.explain(f'instance:copy_export_equal:{cls}')
         if any_key(*[f'shared-mutable:{o}:' for o in owners], *[f'mutation-visible:{o}:' for o in owners]):
             ck.explain(f'instance:copy_fresh_mutables:{cls}')
     if any_key('kv-add-'):
@@ -710,8 +978,23 @@ def run(ck: Ck) -> None:
         ck.explain('instance:kv_iadd_appends_to_self')
     if any_key('kv-'):
         ck.explain('instance:kv_added_items_are_copied')
+        for b in ('kv_add_single', 'kv_add_iter', 'kv_iadd_single', 'kv_iadd_iter'):
+            ck.explain(f'instance:{b}_branch_appends_copy')
+    if any_key('copy-incomplete:'):
+        ck.explain('instance:all_sources_present')
+        ck.explain('instance:all_classes_export_ok')
     if any_key('shared-mutable:', 'mutation-visible:'):
         ck.explain('certificate:export_ok')
+    if any_key('instance-collapse-changes-template:', 'instance-'):
+        ck.explain('instance:collapse_never_writes_template')
+        ck.explain('instance:collapse_only_copies_enter_target')
+        ck.explain('instance:collapse_copies_are_censused')
+    if any_key('operand-changed:', 'operator-returns-operand:', 'op-census-row:'):
+        for fam in ('Vec', 'Angle', 'Matrix'):
+            ck.explain(f'instance:ops_store_nothing_to_operands:{fam}')
+            ck.explain(f'instance:ops_return_fresh:{fam}')
+            ck.explain(f'instance:inplace_ops_write_only_self:{fam}')
+        ck.explain('correspondence:op_census_vs_runtime')
 
 
 def replay(data: dict) -> int:
